@@ -136,6 +136,30 @@ func (ex *Exec) pickNext(cur *Thread, curEnabled bool, why string) *Thread {
 	if len(en) == 1 {
 		return en[0]
 	}
+	if !curEnabled {
+		// forced switch: default = next thread in round-robin order after cur
+		k := 0
+		for i, t := range en {
+			if t.id > cur.id {
+				k = i
+				break
+			}
+		}
+		en = append(en[k:], en[:k]...)
+		if ex.cfg.StrictSchedBound {
+			if ex.preempts >= ex.cfg.Preemptions {
+				return en[0]
+			}
+			guards := make([]*Term, len(en))
+			c := ex.choose("sched:"+why, guards)
+			ex.res.Transitions++
+			ex.schedLog = append(ex.schedLog, en[c].id)
+			if c != 0 {
+				ex.preempts++
+			}
+			return en[c]
+		}
+	}
 	// order: current first (so the default choice is "no switch")
 	if curEnabled {
 		for i, t := range en {
